@@ -185,7 +185,7 @@ Lemma keeps_sync : forall u s1 s2,
   conflicting s1 s2 = true -> synchronised u s1 s2.
 Proof.
   intros u s1 s2 K1 K2 X1 X2 C. unfold keeps in *. rewrite X1 in K1. rewrite X2 in K2. simpl in K1, K2.
-  unfold synchronised. destruct (u_prot u) as [c own|c1 o1 c2 o2| | |rs].
+  unfold synchronised. destruct (u_prot u) as [c own|c1 o1 c2 o2| | |rs|rs].
   - split; assumption.
   - unfold conflicting in C.
     destruct (a_write s1) eqn:W1; destruct (a_write s2) eqn:W2; simpl in C; try discriminate.
@@ -203,6 +203,11 @@ Proof.
       apply orb_true_iff in H. destruct H as [H|H].
       - apply existsb_exists in H. destruct H as [x [Hx E]]. apply root_eqb_eq in E. subst. right. exact Hx.
       - apply root_eqb_eq in H. subst. left. reflexivity. }
+    split; [apply (G s1 K1) | apply (G s2 K2)].
+  - assert (G : forall s, confined_to rs s || (a_after_stop s && negb (a_write s)) = true ->
+                          confined_to rs s = true \/ (a_after_stop s = true /\ a_write s = false)).
+    { intros s H. apply orb_true_iff in H. destruct H as [H|H]; [left; exact H|].
+      apply andb_true_iff in H. destruct H as [H1 H2]. apply negb_true_iff in H2. right. split; assumption. }
     split; [apply (G s1 K1) | apply (G s2 K2)].
 Qed.
 
